@@ -400,6 +400,11 @@ def run(ck, F):
                    'either direction visits the elements positional access yields', floor=6)
     _c15.iterator_rule(ck, F, Sym(F, opaque=contracts.default_opaque(F), max_depth=24), R_it)
 
+    # an accessor returns a valid result only if what it refers to is still alive: a Product / Sum built from a Warehouse refers to the
+    # Lexicon's copy of the sequence, on every path (the empty warehouse included)
+    import c01 as _c01
+    _c01.warehouse_copy(ck, F, 'C14')
+
     # ---------------------------------------------------------------- no unchecked downcast
     R4d = ck.rule('C14.downcasts-confirmed', 'a static downcast (base pointer or reference to derived) in the library is one of the sites '
                   'confirmed by reading: anywhere else the dynamic type of the object is not established, and a member read through the '
